@@ -1,2 +1,98 @@
-From Flaxm Require Import Lib.Harness Model.Graph.
-Example C03_placeholder : True. Proof. exact I. Qed.
+(* C03 -- NNX split/merge round-trips any object graph, preserving sharing and cycles. *)
+From Coq Require Import Permutation.
+From Flaxm Require Import Lib.Harness Model.NnxFilters Model.Graph Proofs.Graph.
+
+(* merge(split(g)) is isomorphic to g, for EVERY heap and root (cycles, self references, shared Variables, nested
+   containers): ri numbers the reachable reference objects without repetition, the rebuilt heap has exactly one cell
+   per reachable object, cell i being the cell of object ri[i] with every reference replaced by its number *)
+Theorem C03_roundtrip_iso : forall h v g ls, flatten h v = Some (g, ls) ->
+  exists ri h' v', unflatten g (map snd ls) = Some (h', v') /\ iso h v ri h' v'.
+Proof. exact roundtrip_iso. Qed.
+Print Assumptions C03_roundtrip_iso.
+
+(* ... hence the same paths exist before and after, lead to the same kind of thing (node type and attribute names,
+   Variable type / value / metadata, static value, array), and two paths reach one object afterwards exactly when
+   they did before *)
+Theorem C03_roundtrip_paths : forall h v g ls, flatten h v = Some (g, ls) ->
+  exists h' v', unflatten g (map snd ls) = Some (h', v') /\
+    (forall p u, at_path h v p = Some u -> exists u', at_path h' v' p = Some u' /\ shape h' u' = shape h u) /\
+    (forall p u', at_path h' v' p = Some u' -> exists u, at_path h v p = Some u /\ shape h' u' = shape h u) /\
+    (forall p q, same_object h v p q <-> same_object h' v' p q).
+Proof. exact roundtrip_paths. Qed.
+Print Assumptions C03_roundtrip_paths.
+
+(* the numbering that carries the isomorphism is injective *)
+Theorem C03_numbering_injective : forall l1 l2 ri i, index_of l1 ri = Some i -> index_of l2 ri = Some i -> l1 = l2.
+Proof. exact index_of_inj. Qed.
+Print Assumptions C03_numbering_injective.
+
+(* splitting with filters partitions the leaves: nothing lost or duplicated, each leaf in the state of its first
+   matching filter and in no other; a leaf no filter matches makes split raise *)
+Theorem C03_split_partitions : forall ti fs ls bs, split_leaves ti fs ls = Some bs ->
+  length bs = length fs /\ Permutation (concat bs) ls /\
+  (forall i b x, nth_error bs i = Some b -> In x b -> first_idx fs (leaf_view ti x 0) = i) /\
+  (forall x, In x ls -> first_idx fs (leaf_view ti x 0) < length fs).
+Proof. exact split_leaves_spec. Qed.
+Print Assumptions C03_split_partitions.
+Theorem C03_split_first_match : forall ti fs ls bs i b x,
+  split_leaves ti fs ls = Some bs -> nth_error bs i = Some b -> In x b ->
+  (exists f, nth_error fs i = Some f /\ denote f (leaf_view ti x 0) = true) /\
+  (forall j g, j < i -> nth_error fs j = Some g -> denote g (leaf_view ti x 0) = false) /\
+  (forall j b', nth_error bs j = Some b' -> In x b' -> j = i).
+Proof. exact split_first_match. Qed.
+Print Assumptions C03_split_first_match.
+
+(* merging the states in any argument order gives the same result (distinct leaves have distinct paths) *)
+Theorem C03_merge_any_order : forall g ss ss', Permutation ss ss' -> NoDup (map fst (concat ss)) -> merge g ss = merge g ss'.
+Proof. exact merge_any_order. Qed.
+Print Assumptions C03_merge_any_order.
+
+(* flatten emits the leaves in strictly increasing path order whenever sibling keys are sorted (they are: Object
+   sorts vars(), dict keys are sorted, list indices ascend; wf_heap / wf_value are evaluated on every generated graph) *)
+Theorem C03_leaf_order_sorted : forall h v g ls, wf_heap h = true -> wf_value v = true -> flatten h v = Some (g, ls) -> ssorted ls.
+Proof. exact flatten_sorted. Qed.
+Print Assumptions C03_leaf_order_sorted.
+
+(* ... so a filtered split merged back in ANY order of its states is the plain round trip, i.e. rebuilds a graph
+   isomorphic to the original (C03_roundtrip_iso) *)
+Theorem C03_merge_split_any_order : forall ti fs h v g bs bs' ls,
+  wf_heap h = true -> wf_value v = true ->
+  flatten h v = Some (g, ls) -> split ti fs h v = Some (g, bs) -> Permutation bs bs' ->
+  merge g bs' = unflatten g (map snd ls).
+Proof. exact merge_split_any_order. Qed.
+Print Assumptions C03_merge_split_any_order.
+
+(* update writes in place: no node changes, every Variable keeps its location and type, Variables no path of the
+   state leads to keep value and metadata, and the last entry written through a path is what the Variable holds *)
+Theorem C03_update_in_place : forall h root st h', update h root st = Some h' ->
+  same_nodes h h' /\
+  (forall l t p m, nth_error h l = Some (OVar t p m) -> exists p' m', nth_error h' l = Some (OVar t p' m')) /\
+  (forall l, (forall pl, In pl st -> at_path h root (fst pl) <> Some (VRef l)) -> nth_error h' l = nth_error h l).
+Proof. exact update_frame. Qed.
+Print Assumptions C03_update_in_place.
+Theorem C03_update_last_wins : forall h root st pl h' t' p' m',
+  update h root (st ++ [pl]) = Some h' -> snd pl = LVar t' p' m' ->
+  exists l t, at_path h root (fst pl) = Some (VRef l) /\ nth_error h' l = Some (OVar t p' m').
+Proof. exact update_last. Qed.
+Print Assumptions C03_update_last_wins.
+
+(* pop only removes attributes (a node keeps its type and a subset of its attributes, Variables themselves are
+   untouched) and everything it returns is a Variable of the graph that the filter of its bucket is the first to
+   select at the returned path.  NOT proved (and false, F19): that no selected Variable remains reachable through
+   another attribute. *)
+Theorem C03_pop_partial : forall ti fs h root h' out, pop ti fs h root = Some (h', out) -> pop_rel h h' /\ out_ok ti fs h out.
+Proof. exact pop_spec. Qed.
+Print Assumptions C03_pop_partial.
+
+(* non-vacuity: a node with a self reference and one Param held by two attributes and inside a list *)
+Definition ex_tree : value := VTree 0 [(0%N, VRef 1); (1%N, VArr 7)].
+Definition ex_heap : heap := [ONode 1 [(1%N, VRef 1); (2%N, VRef 0); (3%N, ex_tree); (4%N, VRef 1)]; OVar 20 5 3].
+Definition ex_gdef : gattr :=
+  ASub (GNode 1 0 [(1%N, ASub (GVar 20 1 3)); (2%N, ASub (GRef 0)); (3%N, ASub (GTree 0 [(0%N, ASub (GRef 1)); (1%N, AArr)])); (4%N, ASub (GRef 1))]).
+Example C03_example :
+  wf_heap ex_heap = true /\
+  flatten ex_heap (VRef 0) = Some (ex_gdef, [([1%N], LVar 20 5 3); ([3%N; 1%N], LArr 7)]) /\
+  unflatten ex_gdef [LVar 20 5 3; LArr 7] = Some (ex_heap, VRef 0) /\
+  pop (mkTy (fun _ => [20%N]) []) [NType 20] ex_heap (VRef 0) =
+    Some ([ONode 1 [(2%N, VRef 0); (3%N, ex_tree); (4%N, VRef 1)]; OVar 20 5 3], [[([1%N], LVar 20 5 3)]]).
+Proof. vm_compute. repeat split; reflexivity. Qed.
